@@ -157,4 +157,318 @@ theorem strPayload_append {c : UInt8} {r k r1 : Bytes} (h : strPayload c r = .ok
       exact splitN_append h s
   · cases h
 
+/-! ### codes -/
+
+theorem u8_eq_of_toNat {c : UInt8} {n : Nat} (hn : n < 256) (h : c.toNat = n) : c = UInt8.ofNat n := by
+  apply UInt8.toNat_inj.mp
+  simp [UInt8.toNat_ofNat', h]
+  omega
+
+theorem u8_ofNat_toNat {n : Nat} (hn : n < 256) : (UInt8.ofNat n).toNat = n := by
+  simp [UInt8.toNat_ofNat']
+  omega
+
+/-- the three ways a code can be a map code -/
+theorem isMapCode_cases {c : UInt8} (h : isMapCode c = true) :
+    (0x80 ≤ c.toNat ∧ c.toNat ≤ 0x8f ∧ shape c = .mapFix (c.toNat - 0x80)) ∨
+    (c.toNat = 0xde ∧ shape c = .mapLen 2) ∨ (c.toNat = 0xdf ∧ shape c = .mapLen 4) := by
+  unfold isMapCode at h
+  simp only [Bool.or_eq_true, Bool.and_eq_true, decide_eq_true_eq, beq_iff_eq] at h
+  rcases h with (⟨h1, h2⟩ | h) | h
+  · left
+    refine ⟨h1, h2, ?_⟩
+    unfold shape shapeN
+    rw [if_neg (by omega), if_pos (by omega)]
+  · right; left
+    refine ⟨h, ?_⟩
+    unfold shape; rw [h]; rfl
+  · right; right
+    refine ⟨h, ?_⟩
+    unfold shape; rw [h]; rfl
+
+theorem isArrayCode_cases {c : UInt8} (h : isArrayCode c = true) :
+    (0x90 ≤ c.toNat ∧ c.toNat ≤ 0x9f ∧ shape c = .arrFix (c.toNat - 0x90)) ∨
+    (c.toNat = 0xdc ∧ shape c = .arrLen 2) ∨ (c.toNat = 0xdd ∧ shape c = .arrLen 4) := by
+  unfold isArrayCode at h
+  simp only [Bool.or_eq_true, Bool.and_eq_true, decide_eq_true_eq, beq_iff_eq] at h
+  rcases h with (⟨h1, h2⟩ | h) | h
+  · left
+    refine ⟨h1, h2, ?_⟩
+    unfold shape shapeN
+    rw [if_neg (by omega), if_neg (by omega), if_pos (by omega)]
+  · right; left
+    refine ⟨h, ?_⟩
+    unfold shape; rw [h]; rfl
+  · right; right
+    refine ⟨h, ?_⟩
+    unfold shape; rw [h]; rfl
+
+theorem isStringCode_cases {c : UInt8} (h : isStringCode c = true) :
+    (0xa0 ≤ c.toNat ∧ c.toNat ≤ 0xbf ∧ shape c = .fixed (c.toNat - 0xa0)) ∨
+    (c.toNat = 0xd9 ∧ shape c = .lenp 1 0) ∨ (c.toNat = 0xda ∧ shape c = .lenp 2 0) ∨
+    (c.toNat = 0xdb ∧ shape c = .lenp 4 0) := by
+  unfold isStringCode isFixStr at h
+  simp only [Bool.or_eq_true, Bool.and_eq_true, decide_eq_true_eq, beq_iff_eq] at h
+  rcases h with ((⟨h1, h2⟩ | h) | h) | h
+  · left
+    refine ⟨h1, h2, ?_⟩
+    unfold shape shapeN
+    rw [if_neg (by omega), if_neg (by omega), if_neg (by omega), if_pos (by omega)]
+  · right; left
+    refine ⟨h, ?_⟩
+    unfold shape; rw [h]; rfl
+  · right; right; left
+    refine ⟨h, ?_⟩
+    unfold shape; rw [h]; rfl
+  · right; right; right
+    refine ⟨h, ?_⟩
+    unfold shape; rw [h]; rfl
+
+/-! ### a strict header is the encoder's header -/
+
+theorem mapHeader_strict {c : UInt8} {r r' : Bytes} {n : Nat} (hm : isMapCode c = true)
+    (hc : countOf c r = .ok (n, r')) (hmin : minimalCount c n = true) :
+    c :: r = encMapLen n ++ r' := by
+  rcases isMapCode_cases hm with ⟨h1, h2, hs⟩ | ⟨h, hs⟩ | ⟨h, hs⟩
+  · unfold countOf at hc; rw [hs] at hc
+    simp only [Except.ok.injEq, Prod.mk.injEq] at hc
+    obtain ⟨hn, hr⟩ := hc
+    subst hn hr
+    unfold encMapLen
+    rw [if_pos (by omega)]
+    have : c = UInt8.ofNat (0x80 + (c.toNat - 0x80)) := u8_eq_of_toNat (by omega) (by omega)
+    rw [← this]; rfl
+  · unfold countOf at hc; rw [hs] at hc
+    obtain ⟨hd, hb, hl, hn⟩ := readBE_ok hc
+    unfold minimalCount at hmin; rw [hs] at hmin
+    simp only [decide_eq_true_eq] at hmin
+    have hlt := beNat_lt hd
+    rw [hl] at hlt
+    unfold encMapLen
+    rw [if_neg (by omega), if_pos (by omega)]
+    have hc' : c = 0xde := by rw [u8_eq_of_toNat (by omega) h]; rfl
+    rw [hc', hb, hn, ← hl, beBytes_beNat]; rfl
+  · unfold countOf at hc; rw [hs] at hc
+    obtain ⟨hd, hb, hl, hn⟩ := readBE_ok hc
+    unfold minimalCount at hmin; rw [hs] at hmin
+    simp only [decide_eq_true_eq] at hmin
+    unfold encMapLen
+    rw [if_neg (by omega), if_neg (by omega)]
+    have hc' : c = 0xdf := by rw [u8_eq_of_toNat (by omega) h]; rfl
+    rw [hc', hb, hn, ← hl, beBytes_beNat]; rfl
+
+theorem arrHeader_strict {c : UInt8} {r r' : Bytes} {n : Nat} (hm : isArrayCode c = true)
+    (hc : countOf c r = .ok (n, r')) (hmin : minimalCount c n = true) :
+    c :: r = encArrLen n ++ r' := by
+  rcases isArrayCode_cases hm with ⟨h1, h2, hs⟩ | ⟨h, hs⟩ | ⟨h, hs⟩
+  · unfold countOf at hc; rw [hs] at hc
+    simp only [Except.ok.injEq, Prod.mk.injEq] at hc
+    obtain ⟨hn, hr⟩ := hc
+    subst hn hr
+    unfold encArrLen
+    rw [if_pos (by omega)]
+    have : c = UInt8.ofNat (0x90 + (c.toNat - 0x90)) := u8_eq_of_toNat (by omega) (by omega)
+    rw [← this]; rfl
+  · unfold countOf at hc; rw [hs] at hc
+    obtain ⟨hd, hb, hl, hn⟩ := readBE_ok hc
+    unfold minimalCount at hmin; rw [hs] at hmin
+    simp only [decide_eq_true_eq] at hmin
+    have hlt := beNat_lt hd
+    rw [hl] at hlt
+    unfold encArrLen
+    rw [if_neg (by omega), if_pos (by omega)]
+    have hc' : c = 0xdc := by rw [u8_eq_of_toNat (by omega) h]; rfl
+    rw [hc', hb, hn, ← hl, beBytes_beNat]; rfl
+  · unfold countOf at hc; rw [hs] at hc
+    obtain ⟨hd, hb, hl, hn⟩ := readBE_ok hc
+    unfold minimalCount at hmin; rw [hs] at hmin
+    simp only [decide_eq_true_eq] at hmin
+    unfold encArrLen
+    rw [if_neg (by omega), if_neg (by omega)]
+    have hc' : c = 0xdd := by rw [u8_eq_of_toNat (by omega) h]; rfl
+    rw [hc', hb, hn, ← hl, beBytes_beNat]; rfl
+
+theorem strHeader_strict {c : UInt8} {r k r1 : Bytes} (hsc : isStringCode c = true)
+    (hk : strPayload c r = .ok (k, r1)) (hmin : minimalStr c k.length = true) :
+    c :: r = encStr k ++ r1 := by
+  unfold encStr
+  rcases isStringCode_cases hsc with ⟨h1, h2, hs⟩ | ⟨h, hs⟩ | ⟨h, hs⟩ | ⟨h, hs⟩
+  · unfold strPayload at hk; rw [hs] at hk
+    obtain ⟨hb, hl⟩ := splitN_ok hk
+    unfold encStrLen
+    rw [if_pos (by omega), hl]
+    have : c = UInt8.ofNat (0xa0 + (c.toNat - 0xa0)) := u8_eq_of_toNat (by omega) (by omega)
+    rw [← this, hb]; rfl
+  · unfold strPayload at hk; rw [hs] at hk
+    simp only at hk
+    cases hr : readBE 1 r with
+    | error e => rw [hr] at hk; cases hk
+    | ok mr =>
+      obtain ⟨m, r'⟩ := mr
+      rw [hr] at hk; simp only at hk
+      obtain ⟨hd, hb, hl, hn⟩ := readBE_ok hr
+      obtain ⟨hb2, hl2⟩ := splitN_ok hk
+      unfold minimalStr at hmin; rw [hs] at hmin
+      simp only [decide_eq_true_eq] at hmin
+      have hlt := beNat_lt hd
+      rw [hl] at hlt
+      unfold encStrLen
+      rw [if_neg (by omega), if_pos (by omega)]
+      have hc' : c = 0xd9 := by rw [u8_eq_of_toNat (by omega) h]; rfl
+      rw [hc', hb, hb2, hl2, hn, ← hl, beBytes_beNat]; simp
+  · unfold strPayload at hk; rw [hs] at hk
+    simp only at hk
+    cases hr : readBE 2 r with
+    | error e => rw [hr] at hk; cases hk
+    | ok mr =>
+      obtain ⟨m, r'⟩ := mr
+      rw [hr] at hk; simp only at hk
+      obtain ⟨hd, hb, hl, hn⟩ := readBE_ok hr
+      obtain ⟨hb2, hl2⟩ := splitN_ok hk
+      unfold minimalStr at hmin; rw [hs] at hmin
+      simp only [decide_eq_true_eq] at hmin
+      have hlt := beNat_lt hd
+      rw [hl] at hlt
+      unfold encStrLen
+      rw [if_neg (by omega), if_neg (by omega), if_pos (by omega)]
+      have hc' : c = 0xda := by rw [u8_eq_of_toNat (by omega) h]; rfl
+      rw [hc', hb, hb2, hl2, hn, ← hl, beBytes_beNat]; simp
+  · unfold strPayload at hk; rw [hs] at hk
+    simp only at hk
+    cases hr : readBE 4 r with
+    | error e => rw [hr] at hk; cases hk
+    | ok mr =>
+      obtain ⟨m, r'⟩ := mr
+      rw [hr] at hk; simp only at hk
+      obtain ⟨hd, hb, hl, hn⟩ := readBE_ok hr
+      obtain ⟨hb2, hl2⟩ := splitN_ok hk
+      unfold minimalStr at hmin; rw [hs] at hmin
+      simp only [decide_eq_true_eq] at hmin
+      unfold encStrLen
+      rw [if_neg (by omega), if_neg (by omega), if_neg (by omega)]
+      have hc' : c = 0xdb := by rw [u8_eq_of_toNat (by omega) h]; rfl
+      rw [hc', hb, hb2, hl2, hn, ← hl, beBytes_beNat]; simp
+
+/-! ### the encoder's header is read back -/
+
+theorem readBE_beBytes (k n : Nat) (hn : n < 256 ^ k) (s : Bytes) :
+    readBE k (beBytes k n ++ s) = .ok (n, s) := by
+  have h := readBE_of_append (beBytes k n) s
+  rw [beBytes_length, beNat_beBytes, Nat.mod_eq_of_lt hn] at h
+  exact h
+
+theorem mapHeader_read (n : Nat) (hn : n < 2 ^ 32) (s : Bytes) :
+    ∃ c r, encMapLen n ++ s = c :: r ∧ isMapCode c = true ∧ countOf c r = .ok (n, s) := by
+  unfold encMapLen
+  by_cases h1 : n < 16
+  · rw [if_pos h1]
+    refine ⟨UInt8.ofNat (0x80 + n), s, rfl, ?_, ?_⟩
+    · unfold isMapCode; rw [u8_ofNat_toNat (by omega)]; simp; omega
+    · unfold countOf shape shapeN; rw [u8_ofNat_toNat (by omega)]
+      rw [if_neg (by omega), if_pos (by omega)]
+      simp
+  · rw [if_neg h1]
+    by_cases h2 : n ≤ 65535
+    · rw [if_pos h2]
+      refine ⟨0xde, beBytes 2 n ++ s, rfl, by decide, ?_⟩
+      show readBE 2 (beBytes 2 n ++ s) = _
+      exact readBE_beBytes 2 n (by omega) s
+    · rw [if_neg h2]
+      refine ⟨0xdf, beBytes 4 n ++ s, rfl, by decide, ?_⟩
+      show readBE 4 (beBytes 4 n ++ s) = _
+      exact readBE_beBytes 4 n (by omega) s
+
+theorem arrHeader_read (n : Nat) (hn : n < 2 ^ 32) (s : Bytes) :
+    ∃ c r, encArrLen n ++ s = c :: r ∧ isMapCode c = false ∧ isArrayCode c = true ∧
+      countOf c r = .ok (n, s) := by
+  unfold encArrLen
+  by_cases h1 : n < 16
+  · rw [if_pos h1]
+    refine ⟨UInt8.ofNat (0x90 + n), s, rfl, ?_, ?_, ?_⟩
+    · unfold isMapCode; rw [u8_ofNat_toNat (by omega)]; simp; omega
+    · unfold isArrayCode; rw [u8_ofNat_toNat (by omega)]; simp; omega
+    · unfold countOf shape shapeN; rw [u8_ofNat_toNat (by omega)]
+      rw [if_neg (by omega), if_neg (by omega), if_pos (by omega)]
+      simp
+  · rw [if_neg h1]
+    by_cases h2 : n ≤ 65535
+    · rw [if_pos h2]
+      refine ⟨0xdc, beBytes 2 n ++ s, rfl, by decide, by decide, ?_⟩
+      show readBE 2 (beBytes 2 n ++ s) = _
+      exact readBE_beBytes 2 n (by omega) s
+    · rw [if_neg h2]
+      refine ⟨0xdd, beBytes 4 n ++ s, rfl, by decide, by decide, ?_⟩
+      show readBE 4 (beBytes 4 n ++ s) = _
+      exact readBE_beBytes 4 n (by omega) s
+
+theorem strPayload_lenp {c : UInt8} {k e m : Nat} {r r' : Bytes} (hs : shape c = .lenp k e)
+    (hr : readBE k r = .ok (m, r')) : strPayload c r = splitN m r' := by
+  unfold strPayload; rw [hs]; simp only; rw [hr]
+
+theorem strHeader_read (k : Bytes) (hk : k.length < 2 ^ 32) (s : Bytes) :
+    ∃ c r, encStr k ++ s = c :: r ∧ isStringCode c = true ∧ strPayload c r = .ok (k, s) := by
+  unfold encStr encStrLen
+  by_cases h1 : k.length < 32
+  · rw [if_pos h1]
+    refine ⟨UInt8.ofNat (0xa0 + k.length), k ++ s, by simp, ?_, ?_⟩
+    · unfold isStringCode isFixStr; rw [u8_ofNat_toNat (by omega)]; simp; omega
+    · unfold strPayload shape shapeN; rw [u8_ofNat_toNat (by omega)]
+      rw [if_neg (by omega), if_neg (by omega), if_neg (by omega), if_pos (by omega)]
+      simp only
+      have : 160 + k.length - 160 = k.length := by omega
+      rw [this]
+      exact splitN_of_append k s
+  · rw [if_neg h1]
+    by_cases h2 : k.length < 256
+    · rw [if_pos h2]
+      refine ⟨0xd9, beBytes 1 k.length ++ (k ++ s), by simp, by decide, ?_⟩
+      rw [strPayload_lenp (c := 0xd9) (k := 1) (e := 0) rfl (readBE_beBytes 1 k.length (by omega) _)]
+      exact splitN_of_append k s
+    · rw [if_neg h2]
+      by_cases h3 : k.length ≤ 65535
+      · rw [if_pos h3]
+        refine ⟨0xda, beBytes 2 k.length ++ (k ++ s), by simp, by decide, ?_⟩
+        rw [strPayload_lenp (c := 0xda) (k := 2) (e := 0) rfl (readBE_beBytes 2 k.length (by omega) _)]
+        exact splitN_of_append k s
+      · rw [if_neg h3]
+        refine ⟨0xdb, beBytes 4 k.length ++ (k ++ s), by simp, by decide, ?_⟩
+        rw [strPayload_lenp (c := 0xdb) (k := 4) (e := 0) rfl (readBE_beBytes 4 k.length (by omega) _)]
+        exact splitN_of_append k s
+
+theorem encMapLen_pos (n : Nat) : 1 ≤ (encMapLen n).length := by
+  unfold encMapLen; split <;> (try split) <;> simp
+theorem encArrLen_pos (n : Nat) : 1 ≤ (encArrLen n).length := by
+  unfold encArrLen; split <;> (try split) <;> simp
+theorem encStr_pos (k : Bytes) : 1 ≤ (encStr k).length := by
+  unfold encStr encStrLen; split <;> (try split) <;> (try split) <;> simp <;> omega
+
+/-- a leaf's extent only depends on the bytes of the leaf itself -/
+theorem leafExtent_prefix {c : UInt8} {p rest : Bytes} {n : Nat}
+    (h : leafExtent c (p ++ rest) = .ok n) (hp : p.length = n) : leafExtent c p = .ok n := by
+  unfold leafExtent at h ⊢
+  split at h
+  · exact h
+  · rename_i k e hs
+    cases hr : readBE k (p ++ rest) with
+    | error er => rw [hr] at h; cases h
+    | ok mr =>
+      obtain ⟨m, r'⟩ := mr
+      rw [hr] at h; simp only at h
+      injection h with hn
+      obtain ⟨hd, hb, hl, hm⟩ := readBE_ok hr
+      -- the length field lies inside `p`
+      have hk : k ≤ p.length := by omega
+      have hp' : p = hd ++ p.drop k := by
+        have h1 : hd = (p ++ rest).take k := by rw [hb]; simp [hl]
+        have h2 : (p ++ rest).take k = p.take k := by
+          rw [List.take_append_of_le_length hk]
+        rw [h1, h2, List.take_append_drop]
+      have : readBE k p = .ok (m, p.drop k) := by
+        have h3 := readBE_of_append hd (p.drop k)
+        rw [← hp', hl, ← hm] at h3
+        exact h3
+      rw [this]; simp only
+      rw [hn]
+  · cases h
+
 end Hv.Patch
